@@ -3,7 +3,7 @@
    equality ==) and ErrorModels/DistR.v (biased-Y-X with sqrt over Coq's real numbers).
    All theorems quantify over every p in [0,1] and every admissible parameter value. *)
 From Coq Require Import QArith Qabs List Bool Reals Floats.
-From QV Require Import ErrorModels.DistQ ErrorModels.DistR ErrorModels.DistFloat.
+From QV Require Import ErrorModels.DistQ ErrorModels.DistR ErrorModels.DistFloat ErrorModels.DistEnds.
 Import ListNotations.
 Open Scope Q_scope.
 
@@ -120,6 +120,33 @@ Theorem c16_ctor_domain_slice_unsigned : forall (lim : lim_arg) (pos : pynum),
   slice_ctor_unsigned lim pos = Accept /\ exists l, lim = LimSeq l /\ forallb is_nonneg_num l = true.
 Proof. exact slice_ctor_unsigned_spec. Qed.
 
+(* --- the end points p = 0 and p = 1 (ErrorModels/DistEnds.v) ------------------------------------
+   biased-Y-X at p = 1: the discriminant is 0, both flip rates are exactly 1 and the distribution is pure Z for every
+   bias > 0 -- the model is total there (nothing is divided by 1 - rate) *)
+Theorem c16_yx_end_p1 : forall h : Q, (0 < h)%Q ->
+  (yx_disc h 1 == 0 /\ yx_rate_x h 1 0 == 1 /\ yx_rate_y h 1 0 == 1)%Q /\ deq (biased_yx h 1 0) (mkD 0 0 0 1).
+Proof. exact (fun h H => conj (conj (yx_disc_p1 h) (conj (proj1 (yx_p1 h H)) (proj1 (proj2 (yx_p1 h H)))))
+                              (proj2 (proj2 (yx_p1 h H)))). Qed.
+Theorem c16_yx_end_p0 : forall h : Q, (0 <= h)%Q ->
+  (yx_disc h 0 == (1 + h) * (1 + h))%Q /\ deq (biased_yx h 0 (1 + h)) (mkD 1 0 0 0).
+Proof. exact (fun h H => conj (yx_disc_p0 h) (yx_p0 h H)). Qed.
+Theorem c16_biased_ends : forall (b : Q) (a : axis), (0 < b)%Q ->
+  deq (biased b a 0) (mkD 1 0 0 0) /\ (dI (biased b a 1) == 0 /\ on_axis a (biased b a 1) == b / (b + 1))%Q.
+Proof. exact (fun b a H => conj (biased_p0 b a H) (biased_p1 b a H)). Qed.
+Theorem c16_slice_ends : forall (lim : Q * Q * Q) (pos : Q), adm_lim lim -> (-(1) <= pos <= 1)%Q ->
+  (forall d, slice lim pos 0 = Some d -> deq d (mkD 1 0 0 0)) /\
+  (exists d, slice lim pos 1 = Some d /\ simplex d /\ (dI d == 0)%Q).
+Proof. exact (fun lim pos Ha Hp => conj (slice_p0 lim pos) (slice_p1 lim pos Ha Hp)). Qed.
+
+(* --- objects: an error-model object with memo tables (lru_cache), driven by any history of "distribution at p" /
+   "read attribute" operations, answers every operation with the pure function of its constructor arguments: no
+   answer depends on what was asked before (the reference for the object-reuse histories of the harness) *)
+Theorem c16_object_history_independent :
+  forall (P K A D : Type) (keqb : K -> K -> bool), (forall a b : K, keqb a b = true <-> a = b) ->
+  forall (f : P -> K -> D) (attrs : P -> A) (ps : P) (h : list (op K)),
+    run P K A D keqb f attrs (mkObj P K D ps []) h = map (spec P K A D f attrs ps) h.
+Proof. exact fresh_object_history. Qed.
+
 (* --- verified checkers applied to the implementation's floats ------------------------------ *)
 Theorem c16_valid_dist_sound : forall (t p : Q) (d : dist), valid_dist_tol t p d = true ->
   nonneg d /\ (Qabs (total d - 1) <= t /\ Qabs (dI d - (1 - p)) <= t)%Q.
@@ -173,3 +200,5 @@ Print Assumptions c16_unit_lim_pure_x. Print Assumptions c16_unit_lim_pure_y. Pr
 Print Assumptions c16_ctor_domain_biased. Print Assumptions c16_ctor_domain_axis. Print Assumptions c16_ctor_domain_yx.
 Print Assumptions c16_ctor_domain_slice. Print Assumptions c16_ctor_domain_slice_unsigned.
 Print Assumptions c16_valid_dist_sound. Print Assumptions c16_close_dist_sound.
+Print Assumptions c16_yx_end_p1. Print Assumptions c16_yx_end_p0. Print Assumptions c16_biased_ends.
+Print Assumptions c16_slice_ends. Print Assumptions c16_object_history_independent.
